@@ -447,7 +447,7 @@ impl Checker {
         // total grid
         let mut total: usize = grids.iter().map(|g| g.len()).product::<usize>().max(1);
         total *= flag_sets.len() * df_sets.len() * mem_patterns.len() * if xmm_srcs.is_empty() { 1 } else { xmm_vals.len() };
-        let cap = if thorough { 3000 } else { 400 };
+        let cap = if thorough { 1000 } else { 400 };
         let stride = (total / cap).max(1);
         if stride > 1 {
             acc.count("encodings_with_strided_state_grid", 1);
